@@ -289,6 +289,10 @@ func ruleSpec(c *Ctx, only func(name string) bool) {
 		pos := ct.Methods["Append"].Fn.Pos()
 		spec, ok := codecSpecs[ct.Name]
 		if !ok {
+			if p.codecUnreachable(ct) {
+				c.Note("S.spec: %s has no entry in the format specification table and is not used by any code of the module (a codec shipped for users to register): its format is not part of the documented encoding of the accepted types - skipped", ct.Name)
+				continue
+			}
 			c.Oblige("S.spec", false, pos, ct.Name, "emission grammar", "new codec type without an entry in the format specification table: needs classification", nil)
 			continue
 		}
